@@ -83,6 +83,8 @@ impl Updatable<E> for Actuator {
 /// an encoder whose update / get outcomes are scripted
 struct Encoder {
     upd_ok: Rc<RefCell<bool>>,
+    /// what the encoder will show after its next successful update (it samples at update, like a real sensor driver)
+    next: Rc<RefCell<Output<State, E>>>,
     out: Rc<RefCell<Output<State, E>>>,
     updates: Rc<RefCell<u64>>,
 }
@@ -94,6 +96,7 @@ impl Getter<State, E> for Encoder {
 impl Updatable<E> for Encoder {
     fn update(&mut self) -> NothingOrError<E> {
         if *self.upd_ok.borrow() {
+            *self.out.borrow_mut() = self.next.borrow().clone();
             *self.updates.borrow_mut() += 1;
             Ok(())
         } else {
@@ -210,8 +213,9 @@ fn actuator(steps: &[Value], c: &C) -> Bad {
 fn encoder(steps: &[Value], c: &C) -> Bad {
     let upd_ok = Rc::new(RefCell::new(true));
     let out: Rc<RefCell<Output<State, E>>> = Rc::new(RefCell::new(Ok(None)));
+    let next: Rc<RefCell<Output<State, E>>> = Rc::new(RefCell::new(Ok(None)));
     let updates = Rc::new(RefCell::new(0u64));
-    let w = leak(GetterStateDeviceWrapper::new(Encoder { upd_ok: upd_ok.clone(), out: out.clone(), updates: updates.clone() }));
+    let w = leak(GetterStateDeviceWrapper::new(Encoder { upd_ok: upd_ok.clone(), next: next.clone(), out: out.clone(), updates: updates.clone() }));
     let ext: Term = leak(Terminal::<E>::new());
     connect(w.get_terminal(), ext);
     let mut now = 0i64;
@@ -221,7 +225,7 @@ fn encoder(steps: &[Value], c: &C) -> Bad {
         let r: Result<NothingOrError<E>, String> = match s(a, "op") {
             "getter" => {
                 now += 1;
-                *out.borrow_mut() = match s(a, "o") {
+                *next.borrow_mut() = match s(a, "o") {
                     "err" => Err(mk_err(1)),
                     "none" => Ok(None),
                     "stale" => Ok(Some(Datum::new(c.t(0), sv(now)))),      // a reading stamped older than anything written before
